@@ -213,7 +213,14 @@ fn centre_typed<D: Dim<N>, T: IntT, const N: usize>(t: &mut Tape, cx: &mut Cx) -
         let top = min == 0 || t.bool();
         let d = t.int(0, (max / 4).min(40) as i64) as i128;
         let e = t.int(0, (max / 4).min(24) as i64) as i128;
-        let (l, h) = if top { (max - d - e, max - d) } else { (min + d, min + d + e) };
+        let (l, h) = if t.chance(48) {
+            // an axis next to the limits whose sum IS representable: asserted strictly
+            if min == 0 { (d, max - e - d) } else { (min + d, max - e) }
+        } else if top {
+            (max - d - e, max - d)
+        } else {
+            (min + d, min + d + e)
+        };
         ua.lo[k] = l;
         ua.hi[k] = h;
         let s = t.int(-3, 3) as i128;
